@@ -6,6 +6,10 @@ from dataclasses import dataclass, field as dfield
 from typing import Optional
 
 VERIF = os.path.dirname(os.path.dirname(os.path.abspath(__file__)))
+# scratch / output locations can be redirected (used when checks are run against seeded trees so that
+# the committed evidence and the shared work directory are left alone)
+WORK = os.environ.get("VERIF_WORK") or os.path.join(VERIF, "work")
+OUT = os.environ.get("VERIF_OUT") or VERIF
 KANI_TOOLCHAIN = "nightly-2026-08-21"
 NCPU = os.cpu_count() or 8
 
